@@ -1787,10 +1787,13 @@ class SpaceUpdater(SharedSpaceOperations):
         for b in basenodes:
             self._graph.remove_edge(b, node)
 
-        self._instructions.append(
-            Instruction(self._update_derived_space, (node,))
-        )
-        for _, v in nx.edge_bfs(self.manager._graph, node):
+        # Every sub space must still have an MRO
+        subs = list(self._graph.ordered_subs(node))
+        for n in subs:
+            self._graph.get_mro(n)
+
+        # Bases before their sub spaces, in the new graph
+        for v in subs:
             self._instructions.append(
                 Instruction(self._update_derived_space, (v,))
             )
@@ -1811,12 +1814,24 @@ class SpaceUpdater(SharedSpaceOperations):
             nodes_removed.append(child)
             self._remove_hook(self._graph, child)
 
-        for _, v in nx.edge_bfs(self.manager._graph, node):
+        # The sub spaces of every removed space, outside the removed tree
+        subs = set()
+        for child in nodes_removed:
+            subs.update(nx.descendants(self._graph, child))
+        subs.difference_update(nodes_removed)
+
+        self._graph.remove_nodes_from(nodes_removed)
+
+        # Every sub space must still have an MRO
+        subs = list(nx.topological_sort(self._graph.subgraph(subs)))
+        for n in subs:
+            self._graph.get_mro(n)
+
+        # Bases before their sub spaces, in the new graph
+        for v in subs:
             self._instructions.append(
                 Instruction(self._update_derived_space, (v,))
             )
-
-        self._graph.remove_nodes_from(nodes_removed)
 
         self._instructions.execute()
         self._update_manager()
